@@ -188,14 +188,28 @@ def run(chk):
     chk.extra['small_world'] = {'configurations': len(rows), 'W': 4 if tier == 'quick' else 6,
                                 'inputs': sum(x['ghi'] - x['glo'] + 1 for x in rows)}
     chk.exhaustive = True
-    obs = []
-    import time as _t
-    t1 = _t.time()
-    for part in core.parallel_map(_exec_small, [(row, pid, tier, i) for i, row in enumerate(rows)], chunksize=4):
-        obs += part
     nwide = (640 if tier == 'quick' else 6400)
     seeds = [(chk.seed * 1000 + i, pid, nwide // core.NPROC + 1) for i in range(core.NPROC)]
+    jobs = [(row, pid, tier, i) for i, row in enumerate(rows)]
+    if tier == 'quick':
+        obs = []
+        for part in core.parallel_map(_exec_small, jobs, chunksize=4):
+            obs += part
+        for part in core.parallel_map(_exec_wide, seeds):
+            obs += part
+        return obs
+    return _stream(jobs, seeds)
+
+
+def _stream(jobs, seeds):
+    """thorough tier: execute and hand over the observations in chunks of configurations (bounded memory)"""
+    step = 160
+    for k in range(0, len(jobs), step):
+        obs = []
+        for part in core.parallel_map(_exec_small, jobs[k:k + step], chunksize=2):
+            obs += part
+        yield obs
+    obs = []
     for part in core.parallel_map(_exec_wide, seeds):
         obs += part
-    chk.extra['exec_wall_s'] = round(_t.time() - t1, 1)
-    return obs
+    yield obs
